@@ -25,6 +25,17 @@ Theorem C20_catch_up : forall s v evs,
   v <= b_height (brun (fst (bstep s (BvReply (Some v)))) evs).
 Proof. exact catch_up. Qed.
 
+(* "within one poll interval", over EVERY history: whenever the loop is sleeping (after any history [pre]), any continuation in which
+   60 s of time pass - whatever notifications, stray replies and tick sizes it is made of - contains the next getinfo; with
+   C20_catch_up its reply makes the height at least what the node reports. What stays outside is the latency of that RPC. *)
+Theorem C20_poll_within_interval : forall pre evs d,
+  b_phase (brun bsys0 pre) = BSleeping d -> POLL_MS <= ticks evs -> In BGetInfo (bouts (brun bsys0 pre) evs).
+Proof. exact poll_within_interval. Qed.
+
+(* in every reachable state the sleep deadline lies ahead of the clock by at most one poll interval *)
+Theorem C20_deadline_window : forall evs, sleep_ok (brun bsys0 evs).
+Proof. intros evs. exact (sleep_ok_run evs bsys0 sleep_ok_init). Qed.
+
 Theorem C20_poll_never_stops : forall s ev, b_phase s <> BStopped -> b_phase s <> BStarting -> b_phase (fst (bstep s ev)) <> BStopped.
 Proof. exact poll_never_stops. Qed.
 
